@@ -212,4 +212,8 @@ theorem invPhase_none (i : In) (h : i.cm = none) : invPhase i = (none, 0) := by
 theorem apply_cm (i : In) : (apply i).cm = (invPhase i).1 := rfl
 theorem apply_invalidated (i : In) : (apply i).invalidated = (invPhase i).2 := rfl
 
+theorem specInvalidate_congr (i : In) (o o' : Out) (h1 : o.cm = o'.cm) (h2 : o.invalidated = o'.invalidated) :
+    specInvalidate i o = specInvalidate i o' := by
+  unfold specInvalidate; rw [h1, h2]
+
 end Clem.Apply
